@@ -241,6 +241,7 @@ pub fn subs() -> Vec<Box<dyn DynSub>> {
         sub(Sub { name: "c04.add_sub", source: Source::Gen(add_strategy, 4_000_000, 40_000_000), oracle: add_oracle, known: no_known, hang_is_violation: false }),
         sub(Sub { name: "c04.unit_f64", source: Source::Gen(unit_strategy, 2_400_000, 15_000_000), oracle: unit_oracle, known: no_known, hang_is_violation: false }),
         sub(Sub { name: "c04.cross_scale_diff", source: Source::Gen(cross_strategy, 2_400_000, 15_000_000), oracle: cross_oracle, known: no_known, hang_is_violation: false }),
+        crate::props::chain::c04_chain(),
         crate::props::fuzzsub::fc04(),
     ]
 }
